@@ -86,6 +86,23 @@ type Sched struct {
 	TornNum       int
 	TornDen       int
 	Ambient       int
+	// RelPaths: change into the directory above the out dir and hand the generator relative paths
+	// (the way the CLI is normally used), instead of absolute ones.
+	RelPaths bool
+}
+
+// relativise changes the working directory to base and returns the paths relative to it plus a restore func.
+func relativise(base string, paths ...*string) (restore func()) {
+	old, err := os.Getwd()
+	if err != nil || os.Chdir(base) != nil {
+		return func() {}
+	}
+	for _, p := range paths {
+		if r, err := filepath.Rel(base, *p); err == nil {
+			*p = r
+		}
+	}
+	return func() { os.Chdir(old) }
 }
 
 func NoFault() (int, string) { return -1, simos.KNone }
@@ -140,7 +157,11 @@ func RunInProcess(inv Invocation, inDir, outDir string, s Sched, root string) (r
 			}
 		}()
 		g := goag.Generator{GenClient: inv.GenClient, GenAPIHandler: inv.APIHandler, DoNotEdit: inv.DoNotEdit}
-		if e := g.GenerateFile(outDir, inv.Package, spec, inv.BasePath, cfg, inv.SpecHandler); e != nil {
+		out := outDir
+		if s.RelPaths {
+			defer relativise(filepath.Dir(outDir), &out, &spec, &cfg)()
+		}
+		if e := g.GenerateFile(out, inv.Package, spec, inv.BasePath, cfg, inv.SpecHandler); e != nil {
 			res.Err = e.Error()
 		}
 	}()
@@ -201,6 +222,18 @@ func RunCLI(cli string, inv Invocation, inDir, outDir string, s Sched, tapeVals 
 		"-spec-handler-name", inv.SpecHandler, fmt.Sprintf("-api-handler=%v", inv.APIHandler),
 	}
 	cmd := exec.Command(cli, args...)
+	if s.RelPaths {
+		base := filepath.Dir(outDir)
+		rel := func(p string) string {
+			if r, err := filepath.Rel(base, p); err == nil {
+				return r
+			}
+			return p
+		}
+		args[1], args[3], args[7] = rel(spec), rel(outDir), rel(cfg)
+		cmd = exec.Command(cli, args...)
+		cmd.Dir = base
+	}
 	cmd.Env = append(os.Environ(), "VERIF_GENSIM_PLAN="+planFile, "TEMPLATE_DEBUG=")
 	var stderr bytes.Buffer
 	cmd.Stderr = &stderr
